@@ -345,3 +345,27 @@ impl FXRates {
         self.__copy__()
     }
 }
+
+// verification hooks: Python's pickle protocol on the FX classes
+#[cfg(feature = "verif")]
+macro_rules! verif_py_pickle {
+    ($name: ident, |$args: ident| $ctor: expr) => {
+        impl $name {
+            pub fn verif_py_pickle(&self) -> Result<$name, String> {
+                let $args = self.__getnewargs__().map_err(|_| "__getnewargs__ failed".to_string())?;
+                let mut o: $name = $ctor.map_err(|_| "cls(*__getnewargs__()) failed".to_string())?;
+                Python::with_gil(|py| {
+                    let st = self.__getstate__(py).map_err(|_| "__getstate__ failed".to_string())?;
+                    o.__setstate__(st).map_err(|_| "__setstate__ failed".to_string())
+                })?;
+                Ok(o)
+            }
+        }
+    };
+}
+#[cfg(feature = "verif")]
+verif_py_pickle!(Ccy, |a| Ccy::new_py(&a.0));
+#[cfg(feature = "verif")]
+verif_py_pickle!(FXRate, |a| FXRate::new_py(&a.0, &a.1, a.2, a.3));
+#[cfg(feature = "verif")]
+verif_py_pickle!(FXRates, |a| FXRates::new_py(a.0, a.1));
